@@ -722,11 +722,11 @@ def run_job(job, kern, wd):
     res = JobResult(job)
     t0 = time.time()
     jd = os.path.join(wd, 'j_' + re.sub(r'[^A-Za-z0-9_.-]', '_', job.name))
-    if os.path.exists(jd):
-        shutil.rmtree(jd)
-    os.makedirs(jd)
     res.dir = jd
     try:
+        if os.path.exists(jd):
+            shutil.rmtree(jd)
+        os.makedirs(jd)
         if job.optional:
             present = True
             if not job.via:
@@ -756,6 +756,19 @@ def run_job(job, kern, wd):
         res.status = 'error'
         res.detail = 'internal: %s' % traceback.format_exc()[-800:]
     res.wall_s = time.time() - t0
+    # disk hygiene: a finished job keeps nothing big (CNF files of the external solver and goto binaries run to GBs)
+    if not os.environ.get('VP_KEEP'):
+        try:
+            if res.status in ('pass', 'skipped'):
+                shutil.rmtree(jd, ignore_errors=True)
+            else:
+                for root, _, files in os.walk(jd):
+                    for fn in files:
+                        fp = os.path.join(root, fn)
+                        if fn.endswith('.cnf') or fn.startswith('external-sat') or os.path.getsize(fp) > (20 << 20):
+                            os.remove(fp)
+        except OSError:
+            pass
     return res
 
 
